@@ -350,8 +350,8 @@ def _open_wrapper(file, mode="r", *args, **kwargs):  # noqa: ANN001, ANN002, ANN
     rel = _rel(canon)
     _cwd_erofs_check(canon, "open")
     if rel is None:
-        if canon is not None and canon.endswith((".sdsstub", "__api.json")):
-            _emit({"op": "outside", "path": canon, "mode": mode})  # output written outside the sandbox
+        if canon is not None and not canon.startswith(("/dev/", "/proc/")):
+            _emit({"op": "outside", "path": canon, "mode": mode})  # something is written outside the sandbox
         return _real_open(file, mode, *args, **kwargs)
     STATE["file_count"] += 1
     index = STATE["file_count"]
